@@ -122,6 +122,24 @@ def build_parameter_mode(
             raise NotImplementedError
 
 
+def _merge_runs(*datasets: "xr.Dataset") -> "xr.Dataset":
+    """Merge the results of the single runs of a sequential observation.
+
+    The runs of a complete parameter grid are concatenated along the parameter
+    dimensions, which keeps the data types (e.g. the unsigned integers of the 'image' bucket).
+    'xr.merge' first fills every run with NaN outside of its own parameter values and
+    therefore converts the integers into floats (and 64-bit codes lose their last bits).
+    """
+    # Late import to speedup start-up time
+    import xarray as xr
+
+    try:
+        return xr.combine_by_coords(datasets, combine_attrs="override")
+    except ValueError:
+        # Not a complete grid of parameter values (e.g. 'sequential' mode)
+        return xr.merge(datasets)
+
+
 class Observation:
     """Observation class."""
 
@@ -298,9 +316,7 @@ class Observation:
             ]
 
             # Merge the sequentially processed DataTrees into the final result
-            final_datatree = xr.map_over_datasets(
-                lambda *data: xr.merge(data), *datatree_list
-            )
+            final_datatree = xr.map_over_datasets(_merge_runs, *datatree_list)
 
         # Assign the running mode to the final DataTree attributes
         parameter_name: str = str(self.parameter_mode.__class__)
